@@ -28,6 +28,14 @@ CHECKS = {
    technique=TECH + "partition invariant monitor at quiescent points of simulated runs",
    text="At every acknowledged flush with empty buffers and retirement queue the data area is checked to be exactly partitioned into live extents and maximal free runs, the allocator's own totals are recomputed, the persisted metadata counters are compared with the independently decoded durable image, and an OutOfSpace flush must be justified by the buffered extents not fitting the largest free run.",
    note="Quiescent points only; small devices (24-256 data blocks); fault-free."),
+ "C07": dict(engine="conc", level="exploration", ref="DESIGN.md 5 C07",
+   technique=TECH + "2-4 simulated clients on shared keys; the hashed index is sampled at every scheduling step, giving the exact install order of generations, against which every call is attributed and justified",
+   text="2-4 client threads issue short sequences (get, insert, delete, compare-and-swap, increment, insert-if-absent, JSON patch, TTL update, flush) on 1-3 shared keys, memory-only and persistent with the real flush workers, under random / sticky / PCT / starve-one schedules with preemption at every seam incl. the optimistic-read -> guarded-swap windows. The per-key sequence of installed generations (timestamp, length, expiry) is observed at every scheduling step; every successful modification must be attributable one-to-one to an installed generation inside its call interval (global event numbers), every transition must go to a strictly newer timestamp, created/swapped/incremented results must fit the predecessor generation (no lost increment, one winner per expected state), and every read, refusal or no-swap must be justified by a state inside the call interval or by one of the two conservative deviations of the property. Exploration level.",
+   note="Linearisation order is taken from the observed install order (trusts the read-only snapshot hook); preemption only at seams; values have unique lengths so that generations are identifiable."),
+ "C08": dict(engine="conc", level="exploration", ref="DESIGN.md 5 C08",
+   technique=TECH + "readers against writers/flusher on tiny devices with immediate block reuse; per-read genuineness oracle plus device-side monitor of writes over pinned extents",
+   text="Persistent stores on 8-16 block devices (freed blocks are reused at once), cache on and off, single- and multi-block values: readers (get, get_bytes, range, compare-and-swap, increment) race writers, deleters, TTL rewrites, explicit flushes and the background workers, with yield sites around pin / sector load / pread / identity check and between retire, marker write and release. Each read must return byte-for-byte a value written to that key whose generation was current inside the call interval, not-found only if the key was absent/expired inside it, StaleExtent only if a modification overlapped; the simulated device flags any write that overlaps an extent a reader has pinned.",
+   note="Same trust base as C07; pin events come from the hook in load_value_from_disk / prepare_deferred_record_data."),
  "C10": dict(engine="seq", level="exploration", ref="DESIGN.md 5 C10",
    technique=TECH + "independent decoder of the documented layout applied to the durable image at every acknowledged flush",
    text="After each acknowledged flush of seeded workloads on v1, v2 and v3 devices the durable image (what survives power loss) is decoded by a reader written from the documented layout only; it must contain exactly the model's keys with value, timestamp and expiry, a clear journal and metadata counters equal to the live totals; legacy devices must keep their own record format.",
@@ -35,7 +43,7 @@ CHECKS = {
  "C11": dict(engine="seq", level="exploration", ref="DESIGN.md 5 C11",
    technique=TECH + "virtual clock positioned exactly at expiry-1/expiry/expiry+1 against the reference model",
    text="TTL workloads with the simulator owning the clock: the wall clock is set exactly to expiry-1, expiry and expiry+1 of model keys, jumped forwards/backwards, and every value-reading call must see the key iff now <= expiry; absolute expiry must be unchanged by flush and clean restart; TTL-only updates on offloaded keys keep the value.",
-   note="Sequential half only in this stage; sweeper races are covered by the concurrent stage when present."),
+   note="Stage 1 sequential (exact clock control); stage 2 concurrent: sweeper thread with 1-50 ms interval against renewing/replacing writers and readers, oracle from the observed install sequence (only an expired generation may disappear without a call accounting for it)."),
  "C12": dict(engine="seq", level="exploration", ref="DESIGN.md 5 C12",
    technique=TECH + "observed automatic timestamps checked against per-key history under clock faults",
    text="Mixes of automatic and explicit (past, future, extreme) timestamps over all operation kinds with frozen and jumping clocks, across flush and clean restart; each automatic timestamp observed through the snapshot hook must exceed the key's previous timestamp and every timestamp accepted or recovered for it; automatic calls must not be answered OlderTimestamp unless the key sits at u64::MAX.",
@@ -43,15 +51,19 @@ CHECKS = {
  "C13": dict(engine="seq", level="exploration", ref="DESIGN.md 5 C13",
    technique=TECH + "exact accounting oracle after every simulated call",
    text="memory_usage() and len() are compared with the model's sum(overhead + key + value) after every call of seeded workloads, including refused writes under tight limits, growing/shrinking updates, expiries and clean restarts.",
-   note="Sequential half; the concurrent at-every-step limit monitor is part of the concurrent stage when present."),
+   note="Stage 1 sequential exact accounting; stage 2 concurrent: creators/growers/deleters against tight limits with memory_usage() <= limit evaluated at every scheduling step and exact sums at quiescence."),
  "C14": dict(engine="seq", level="exploration", ref="DESIGN.md 5 C14",
    technique=TECH + "range queries against the ordered reference model on every tier",
    text="Range queries with arbitrary bounds (empty, extreme, start > end, neighbours of keys) and limits are compared exactly with the reference model on every tier; ordered and hashed index are compared at quiescence.",
-   note="Sequential half; scans racing writers are part of the concurrent stage when present."),
+   note="Stage 1 sequential exact comparison; stage 2 concurrent scans against writers with a yield per scanned entry: ascending, in bounds, <= limit, genuine current values, stable keys exactly once, absent keys never."),
+ "C18": dict(engine="conc", level="exploration", ref="DESIGN.md 5 C18",
+   technique=TECH + "exact deadlock detection by the scheduler (no enabled thread, no pending timer) and bounded virtual-time liveness on contention workloads",
+   text="Contention workloads (concurrent flush() callers with writers and readers on the same keys, tiny/full devices, multi-block values, 1-3 shards and workers) under all scheduler strategies; because shimmed locks, channels, sleeps and joins are scheduling points, a thread can be parked while holding the device or free-space lock, so lock-order inversions and lost wake-ups are reachable. The scheduler reports deadlock exactly (with the wait-for state of every thread), any call running longer than 120 virtual seconds, and a real hang is caught by a wall-clock watchdog and confirmed by replay.",
+   note="Stage 1 of the design (fault-free contention); failing/dead-device stages are added with the fault engine."),
  "C16": dict(engine="seq", level="exploration", ref="DESIGN.md 5 C16",
    technique=TECH + "differential execution of the same tape with cache on and off under a frozen clock",
    text="The same operation tape is executed twice inside one simulated run, cache on and cache off, with the wall clock frozen so results are a function of the tape alone; the two result sequences must be identical call by call.",
-   note="Part (a) of the design; parts (b)/(c) belong to the concurrent and cache stages when present."),
+   note="Stage 1 = part (a) differential; stage 2 = part (b): concurrent readers/writers on offloaded keys with the cache on (a stale hit is a read of a generation that was not current during the call). Part (c) (ClockCache alone) is added with the cache engine."),
 }
 
 NOT_APPLICABLE = {
